@@ -692,7 +692,7 @@ class Ctx:
             except Watchdog:
                 self.drv.restart()
                 if first == 'watchdog':
-                    msg = 'conversion does not return within %d s (twice)' % CALL_WATCHDOG_S
+                    msg = 'conversion does not return within %d s (twice)' % (case.get('watchdog', CALL_WATCHDOG_S) if isinstance(case, dict) else CALL_WATCHDOG_S)
                     if getattr(self.module, 'HANG_IS_VIOLATION', False):
                         self._violation(case, msg, sig='hang')
                         return msg
